@@ -306,3 +306,154 @@ func TokSweep(maxLen int, emit func(Ev)) int {
 	rec(nil)
 	return n
 }
+
+// RunParamsCLI drives the same question through the command layer of the REAL binary: the run is started the way the
+// web API does it (client.Start -> `blackdagger start -p "<params>" file`), restarted while it is running
+// (`blackdagger restart file`: stop, then a new run with the parameters of the previous one) and the canceled first
+// run is retried (`blackdagger retry --req id file`). Probe steps dump what they see in each of the three runs.
+func RunParamsCLI(self, bin string, sc ParamScenario, base string) Ev {
+	dir := filepath.Join(base, fmt.Sprintf("cli%d", sc.ID))
+	dagsDir := filepath.Join(dir, "dags")
+	os.MkdirAll(dagsDir, 0o755)
+	if os.Getenv("VH_KEEP") == "" {
+		defer os.RemoveAll(dir)
+	}
+	var names []string
+	for _, p := range sc.Params {
+		if p.Name != "" {
+			names = append(names, p.Name)
+		}
+	}
+	ps := RenderParams(sc.Params)
+	probe := func(tag string) string {
+		c := fmt.Sprintf("%s probe -dir %s -tag %s", self, dir, tag)
+		if len(names) > 0 {
+			c += " -names " + strings.Join(names, ",")
+		}
+		if argSafe[sc.Payload] {
+			c += " -- $OUTV"
+		}
+		return c
+	}
+	y := "logDir: " + filepath.Join(dir, "logs") + "\nmaxCleanUpTimeSec: 3\n"
+	if !sc.AtStart && ps != "" {
+		y += "params: " + yamlQuote(ps) + "\n"
+	}
+	y += "steps:\n"
+	y += "  - name: prod\n    command: " + self + " payload -class " + sc.Payload + "\n    output: OUTV\n"
+	y += "  - name: first\n    command: " + probe("first") + "\n    depends: [prod]\n"
+	y += "  - name: hold\n    command: sh -c \"test -f " + filepath.Join(dir, "release") + " || sleep 30\"\n    depends: [first]\n"
+	y += "  - name: after\n    command: " + probe("after") + "\n    depends: [hold]\n"
+	file := filepath.Join(dagsDir, fmt.Sprintf("cli%d.yaml", sc.ID))
+	os.WriteFile(file, []byte(y), 0o644)
+	for k, v := range map[string]string{"HOME": dir, "BLACKDAGGER_HOME": dir, "BLACKDAGGER_DAGS_DIR": dagsDir, "BLACKDAGGER_DATA_DIR": filepath.Join(dir, "data"),
+		"BLACKDAGGER_LOG_DIR": filepath.Join(dir, "logs"), "BLACKDAGGER_SUSPEND_FLAGS_DIR": filepath.Join(dir, "susp"), "BLACKDAGGER_WORK_DIR": dir} {
+		os.Setenv(k, v)
+	}
+	for _, k := range append([]string{"1", "2", "3", "OUTV"}, names...) {
+		os.Unsetenv(k)
+	}
+	rec := Ev{"kind": "cli", "id": sc.ID, "sc": sc, "rendered": ps, "infra": "", "run1": "?", "run2": "?", "runsRecorded": 0}
+	given := ""
+	if sc.AtStart {
+		given = ps
+	}
+	ds := dsclient.NewDataStores(dagsDir, filepath.Join(dir, "data"), filepath.Join(dir, "susp"), dsclient.DataStoreOptions{})
+	cli := client.New(ds, bin, dir, quietLogger)
+	d, err := dag.LoadMetadata(file)
+	if err != nil {
+		rec["infra"] = "load: " + err.Error()
+		return rec
+	}
+	defer os.Remove(d.SockAddr())
+	setRun := func(n int) { os.WriteFile(filepath.Join(dir, "run"), []byte(fmt.Sprint(n)), 0o644) }
+	// ---- run 1: start through the client (as the API does)
+	setRun(1)
+	r1 := make(chan error, 1)
+	go func() { r1 <- cli.Start(d, client.StartOptions{Params: given, Quiet: true}) }()
+	dl := time.Now().Add(20 * time.Second)
+	for {
+		if _, err := os.Stat(filepath.Join(dir, "first.1.json")); err == nil {
+			break
+		}
+		if time.Now().After(dl) {
+			rec["infra"] = "run 1 never reached its first probe"
+			return rec
+		}
+		time.Sleep(10 * time.Millisecond)
+	}
+	time.Sleep(250 * time.Millisecond) // the hold step is running now
+	// ---- run 2: restart while run 1 is running
+	os.WriteFile(filepath.Join(dir, "release"), []byte("x"), 0o644)
+	setRun(2)
+	r2 := make(chan error, 1)
+	go func() { r2 <- cli.Restart(d, client.RestartOptions{Quiet: os.Getenv("VH_CLI_VERBOSE") == ""}) }()
+	for i, ch := range []chan error{r2, r1} {
+		select {
+		case <-ch:
+		case <-time.After(40 * time.Second):
+			rec["infra"] = fmt.Sprintf("phase %d of the restart does not end", i)
+			return rec
+		}
+	}
+	hist := ds.HistoryStore().ReadStatusRecent(file, 10)
+	rec["runsRecorded"] = len(hist)
+	req1 := ""
+	if len(hist) == 2 {
+		rec["run2"] = hist[0].Status.Status.String()
+		rec["run1"] = hist[1].Status.Status.String()
+		rec["recordedParams"] = hist[1].Status.Params
+		rec["restartParams"] = hist[0].Status.Params
+		req1 = hist[1].Status.RequestID
+	}
+	// ---- run 3: retry of the canceled first run
+	if req1 != "" {
+		setRun(3)
+		r3 := make(chan error, 1)
+		go func() { r3 <- cli.Retry(d, req1) }()
+		select {
+		case <-r3:
+		case <-time.After(40 * time.Second):
+			rec["infra"] = "the retry does not end"
+			return rec
+		}
+	}
+	want := Ev{}
+	pos := 0
+	for _, p := range sc.Params {
+		pos++
+		if p.Name == "" {
+			want[fmt.Sprint(pos)] = ParamValues[p.Class]
+		} else {
+			want[p.Name] = ParamValues[p.Class]
+		}
+	}
+	want["OUTV"] = strings.TrimSpace(PayloadValues[sc.Payload])
+	if argSafe[sc.Payload] {
+		want["ARG_OUTV"] = want["OUTV"]
+	}
+	probes := Ev{}
+	for _, tag := range []string{"first.1", "first.2", "after.2", "after.3"} {
+		b, err := os.ReadFile(filepath.Join(dir, tag+".json"))
+		if err != nil {
+			probes[strings.ReplaceAll(tag, ".", "_")] = Ev{"missing": true, "bad": []string{}}
+			continue
+		}
+		var seen map[string]any
+		json.Unmarshal(b, &seen)
+		bad := []string{}
+		for k, w := range want {
+			if s, ok := seen[k].(string); !ok || s != w.(string) {
+				bad = append(bad, k)
+			}
+		}
+		sortStrings(bad)
+		detail := Ev{}
+		for _, k := range bad {
+			detail[k] = Ev{"want": trunc(fmt.Sprint(want[k]), 60), "got": trunc(fmt.Sprint(seen[k]), 60)}
+		}
+		probes[strings.ReplaceAll(tag, ".", "_")] = Ev{"missing": false, "bad": bad, "detail": detail}
+	}
+	rec["probes"] = probes
+	return rec
+}
